@@ -52,9 +52,8 @@ CONTRACTS = {
         'ensures': ['self.store == cnil', 'self._numvar == 0'],
     },
     ('cnfgen/formula/cnf.py', 'Formula.new_mapping'): newmap('n * m', {'n': 'int', 'm': 'int', 'label': 'any'}),
-    # as the code stands: VariablesManager.new_binary_mapping refuses negatives, BinaryMappingVariables.__init__ refuses n<1 or m<1
     ('cnfgen/formula/cnf.py', 'Formula.new_binary_mapping'): dict(
-        newmap('n * bitlen(m)', {'n': 'int', 'm': 'int', 'label': 'any'}), raises={'ValueError': 'n < 1 or m < 1'}),
+        newmap('n * bitlen(m)', {'n': 'int', 'm': 'int', 'label': 'any'}), raises={'ValueError': 'n < 0 or m < 0'}),
     ('cnfgen/formula/cnf.py', 'Formula.force_complete_mapping'): force('complete'),
     ('cnfgen/formula/cnf.py', 'Formula.force_functional_mapping'): force('functional'),
     ('cnfgen/formula/cnf.py', 'Formula.force_surjective_mapping'): force('surjective'),
